@@ -141,6 +141,11 @@ func (c *ICell) Field(t types.Type, name string) *ICell {
 	return nil
 }
 
+// IPanic: the interpreted code itself panics on this input (as opposed to the interpreter not covering a construct).
+type IPanic struct{ Msg string }
+
+func (p *IPanic) Error() string { return "run-time panic: " + p.Msg }
+
 func NewInterp(c *Ctx) *Interp { return &Interp{c: c, globals: map[*ssa.Global]*ICell{}} }
 
 func zeroOf(t types.Type) IVal {
@@ -583,13 +588,13 @@ func (it *Interp) run(fn *ssa.Function, args []IVal, depth int) ([]IVal, error) 
 					ix := idx.I
 					if base.K == ivSlice {
 						if ix < 0 || ix >= base.Hi-base.Lo {
-							return nil, fmt.Errorf("%s: index %d out of range", fn.Name(), ix)
+							return nil, &IPanic{fmt.Sprintf("%s: index %d out of range", fn.Name(), ix)}
 						}
 						ix += base.Lo
 					}
 					e := base.P.Elems[ix]
 					if e == nil {
-						return nil, fmt.Errorf("%s: index %d out of range", fn.Name(), idx.I)
+						return nil, &IPanic{fmt.Sprintf("%s: index %d out of range", fn.Name(), idx.I)}
 					}
 					env[x] = IPtr(e)
 				} else {
@@ -601,7 +606,7 @@ func (it *Interp) run(fn *ssa.Function, args []IVal, depth int) ([]IVal, error) 
 				case base.K == ivAgg && idx.K == ivInt:
 					e := base.P.Elems[idx.I]
 					if e == nil {
-						return nil, fmt.Errorf("%s: index %d out of range", fn.Name(), idx.I)
+						return nil, &IPanic{fmt.Sprintf("%s: index %d out of range", fn.Name(), idx.I)}
 					}
 					env[x] = cellValue(e)
 				case base.K == ivStr && idx.K == ivInt && idx.I >= 0 && idx.I < int64(len(base.S)):
